@@ -211,7 +211,13 @@ def format_context(format_str):
             new_args.append(lena.context.get_recursively(context, arg))
         # other exceptions, like ValueError
         # (for bad string formatting) may be raised.
-        s = format_str.format(*new_args)
+        try:
+            s = format_str.format(*new_args)
+        except ValueError as err:
+            # LenaValueError is also a ValueError
+            raise LenaValueError(
+                "can not format '{}': {}".format(format_str, err)
+            )
         return s
     return _format_context
 
